@@ -100,3 +100,17 @@ pub use self::transform::Translation;
 
 /// Storage container for low level point data.
 pub type RawValues = Vec<RecordValue>;
+
+/// Verification hooks (only compiled with `--cfg e57_verif`).
+/// Re-exports crate-private building blocks so that an external
+/// conformance harness can drive them directly. Not part of the public API.
+#[cfg(e57_verif)]
+#[doc(hidden)]
+pub mod verif {
+    pub use crate::bitpack::BitPack;
+    pub use crate::bs_read::ByteStreamReadBuffer;
+    pub use crate::bs_write::ByteStreamWriteBuffer;
+    pub use crate::paged_reader::PagedReader;
+    pub use crate::paged_writer::PagedWriter;
+    pub use crate::queue_reader::QueueReader;
+}
